@@ -105,14 +105,14 @@ func runC13Chain(seed uint64, n int, outDir string, replay string) {
 						continue
 					}
 					switch {
-					case types.IsCoinBaseTx(tx) && len(tx.Data()) == 1+common.HashLength && int(tx.Data()[0]) < len(params.LockupByteToBlockDepth):
+					case isCoinbaseEtx(tx) && len(tx.Data()) == 1+common.HashLength && int(tx.Data()[0]) < len(params.LockupByteToBlockDepth):
 						d := params.LockupByteToBlockDepth[tx.Data()[0]]
 						amt := params.CalculateCoinbaseValueWithLockup(tx.Value(), tx.Data()[0], num+d)
 						o.Op("ev %s %s %d %d", who, amt, num, d)
 						ans("ok")
 						pending = append(pending, pend{who, amt, num + d, d})
 						o.Count(fmt.Sprintf("reward:coinbase-lock%d", tx.Data()[0]))
-					case types.IsConversionTx(tx):
+					case isConversionEtx(tx):
 						d := params.ConversionLockPeriod
 						o.Op("ev %s %s %d %d", who, tx.Value(), num, d)
 						ans("ok")
@@ -205,7 +205,7 @@ func c13Issuance(o *h.Out, ans func(string), n *zoneNode, blk *types.WorkObject,
 	num := blk.NumberU64(common.ZONE_CTX)
 	var issued []*types.Transaction
 	for _, e := range blk.OutboundEtxs() {
-		if types.IsCoinBaseTx(e) {
+		if isCoinbaseEtx(e) {
 			issued = append(issued, e)
 		}
 	}
